@@ -182,6 +182,10 @@ class Models(object):
         # text only used for error messages: opaque
         R('<str as ToString>::to_string|<String as Clone>::clone|fmt::format', lambda ex, fr, c, a, st, pc: (('string', 'opaque'), S.TRUE))
         R('v5::new_v5', self.uuid_v5)
+        # --- formatting is opaque (the text is not the subject of any check that runs Display)
+        opaque = lambda ex, fr, c, a, st, pc: (('fmt', 'opaque'), S.TRUE)
+        R('slice::join|Argument::new_display|Argument::new_debug|Arguments::new|Arguments::new_const|<Arc as ToString>::to_string|<OrderType as ToString>::to_string', opaque)
+        R('Formatter::write_fmt|Formatter::write_str', lambda ex, fr, c, a, st, pc: (enum_const(0, (UNIT,)), S.TRUE))
 
     # ------------------------------------------------------------------ atomics
     def atomic_load(self, ex, fr, c, a, st, pc):
